@@ -264,12 +264,15 @@ def run(ck: Check):
         import prototext
         msgs, _ = prototext.load(REPO)
         id2name = {m["id"]: m["name"] for m in msgs if m.get("id")}
-    for then in ("unsub", "stop-request", "handler-returns", "handler-returns-none", "second-start"):
+    for then in ("unsub", "stop-request", "handler-returns", "handler-returns-none", "second-start", "handler-raises",
+                 "handler-raises-at-once", "handler-cancelled"):
         net, client, conn, _stops = simnet.established(keepalive=100000.0)
         loop = net.loop
         futs = []
 
-        async def handle_start(conv, flags, audio, wake, futs=futs, loop=loop):
+        async def handle_start(conv, flags, audio, wake, futs=futs, loop=loop, then=then):
+            if then == "handler-raises-at-once":
+                raise RuntimeError("no audio pipeline")
             f = loop.create_future()
             futs.append(f)
             return await f
@@ -280,13 +283,17 @@ def run(ck: Check):
         unsub = client.subscribe_voice_assistant(handle_start=handle_start, handle_stop=handle_stop)
         net.send(_pb.VoiceAssistantRequest(start=True, conversation_id="c"))
         loop.run_idle()
-        before = len(net.written())
+        before = len(net.written()) if then != "handler-raises-at-once" else 0
         if then == "unsub":
             unsub()
         elif then == "stop-request":
             net.send(_pb.VoiceAssistantRequest(start=False))
         elif then == "second-start":
             net.send(_pb.VoiceAssistantRequest(start=True, conversation_id="d"))
+        elif then == "handler-raises" and futs:
+            futs[0].set_exception(RuntimeError("no audio pipeline"))   # the application's handler fails
+        elif then == "handler-cancelled" and futs:
+            futs[0].cancel()
         elif futs:
             futs[0].set_result(6055 if then == "handler-returns" else None)
         for _ in range(3):
